@@ -10,7 +10,7 @@
 // except according to those terms.
 
 use crate::client::{MetricBackend, StatsdClient};
-use crate::types::{Metric, MetricError, MetricResult};
+use crate::types::{ErrorKind, Metric, MetricError, MetricResult};
 use std::fmt::{self, Write};
 use std::marker::PhantomData;
 
@@ -381,6 +381,11 @@ where
     T: Metric + From<String>,
 {
     pub(crate) fn from_fmt(formatter: MetricFormatter<'m>, client: &'c StatsdClient) -> Self {
+        // A metric line needs at least one value, an empty packed list has none.
+        if formatter.val.count() == 0 {
+            return Self::from_error(MetricError::from((ErrorKind::InvalidInput, "no values")), client);
+        }
+
         MetricBuilder {
             repr: BuilderRepr::Success(formatter, client),
             type_: PhantomData,
